@@ -6,6 +6,7 @@ package rig
 
 import (
 	"context"
+	"errors"
 	"fmt"
 	"net/http"
 	"net/url"
@@ -131,6 +132,7 @@ type Outcome struct {
 	NodeMethods []string
 	NodeAllow   string
 	URLPath     string
+	URLRawPath  string   // URL.RawPath as the handler saw it
 	Trace       []string // middleware names run at request time, outermost first
 
 	Status     int // explicit or implied status; 0 when nothing was written
@@ -185,6 +187,9 @@ type ctxKey struct{}
 type Rec struct {
 	o   *Outcome
 	hdr http.Header
+	// failAfter > 0: the connection "goes away" once that many body bytes were taken - the Write that crosses the
+	// limit is cut short and returns an error, like a client that hung up
+	failAfter int
 }
 
 func (r *Rec) Header() http.Header { return r.hdr }
@@ -204,6 +209,14 @@ func (r *Rec) Write(b []byte) (int, error) {
 		r.o.HeaderAtWH = r.hdr.Clone()
 	}
 	r.o.Writes++
+	if r.failAfter > 0 && len(r.o.Body)+len(b) > r.failAfter {
+		n := r.failAfter - len(r.o.Body)
+		if n < 0 {
+			n = 0
+		}
+		r.o.Body = append(r.o.Body, b[:n]...)
+		return n, errors.New("write: connection reset by peer")
+	}
 	r.o.Body = append(r.o.Body, b...)
 	return len(b), nil
 }
@@ -216,6 +229,7 @@ func Call(w http.ResponseWriter, r *http.Request, route types.Route, h *H) {
 	}
 	o.Called++
 	o.URLPath = r.URL.Path
+	o.URLRawPath = r.URL.RawPath
 	o.RouterName = route.RouterName()
 	if n := route.Node(); n != nil {
 		o.Pattern = n.Pattern()
@@ -319,6 +333,10 @@ type Req struct {
 	UnknownLength bool `json:"unknown_length,omitempty"`
 	// Chunked marks the request as received with Transfer-Encoding: chunked (what a server hands to the handler for such an upload)
 	Chunked bool `json:"chunked,omitempty"`
+	// RawPath: the escaped spelling the request target was written in (URL.RawPath), when it differs from the default encoding of Path
+	RawPath string `json:"raw_path,omitempty"`
+	// FailWriteAfter > 0: the response writer fails once that many body bytes were written
+	FailWriteAfter int `json:"fail_write_after,omitempty"`
 
 	PanicAt    string `json:"panic_at,omitempty"`
 	PanicAfter bool   `json:"panic_after,omitempty"`
@@ -336,7 +354,7 @@ func (q Req) Build() (*http.Request, *Outcome, *Rec) {
 		hdr[k] = append([]string{}, v...)
 	}
 	r := &http.Request{
-		Method: q.Method, URL: &url.URL{Path: q.Path}, Host: q.Host, Header: hdr,
+		Method: q.Method, URL: &url.URL{Path: q.Path, RawPath: q.RawPath}, Host: q.Host, Header: hdr,
 		Proto: "HTTP/1.1", ProtoMajor: 1, ProtoMinor: 1, RequestURI: q.Path,
 	}
 	if q.Body != "" {
@@ -350,7 +368,7 @@ func (q Req) Build() (*http.Request, *Outcome, *Rec) {
 		r.TransferEncoding = []string{"chunked"}
 	}
 	r = r.WithContext(context.WithValue(context.Background(), ctxKey{}, o))
-	rec := &Rec{o: o, hdr: http.Header{}}
+	rec := &Rec{o: o, hdr: http.Header{}, failAfter: q.FailWriteAfter}
 	return r, o, rec
 }
 
